@@ -55,9 +55,13 @@ static int sh_ncnt(int tier)
         return tier ? (int)(sizeof SH_CNT_THOROUGH / sizeof(int)) : (int)(sizeof SH_CNT_QUICK / sizeof(int));
 }
 
+/* many exact copies of one sequence plus a few unrelated ones (k-means cannot tell the copies apart: the halving fallback runs on
+   sets of odd and even size) */
+static const int SH_DUPMIX[][2] = {{147, 3}, {147, 3}, {101, 3}, {202, 1}, {128, 2}, {255, 4}, {301, 2}, {175, 5}};
+#define SH_NDUPMIX 8
 static uint64_t shapes_count(int tier)
 {
-        return (uint64_t)sh_npairs(tier) + (uint64_t)sh_ncnt(tier) * 2 + (tier ? 4 : 2);
+        return (uint64_t)sh_npairs(tier) + (uint64_t)sh_ncnt(tier) * 2 + (tier ? 4 : 2) + SH_NDUPMIX;
 }
 
 static const char* shapes_name(int idx, int tier)
@@ -77,6 +81,9 @@ static const char* shapes_name(int idx, int tier)
                 int k = idx - np;
                 const int* CNT = tier ? SH_CNT_THOROUGH : SH_CNT_QUICK;
                 snprintf(buf, sizeof buf, "%d sequences %s", CNT[k / 2], (k & 1) ? "protein" : "dna");
+        }else if(idx >= np + 2 * nc + (tier ? 4 : 2)){
+                int k = idx - np - 2 * nc - (tier ? 4 : 2);
+                snprintf(buf, sizeof buf, "%d copies + %d others", SH_DUPMIX[k][0], SH_DUPMIX[k][1]);
         }else{
                 int k = idx - np - 2 * nc;
                 snprintf(buf, sizeof buf, "ratio %d:%d", SH_RATIO[k][0], SH_RATIO[k][1]);
@@ -121,6 +128,26 @@ static void shapes_build(int idx, int tier, long seed, struct kx_set* out)
                         }else{
                                 sh_derive(&st, alpha, bases[b], (int)strlen(bases[b]), (int)strlen(bases[b]) - (i % 4), tmp);
                                 kx_set_add(out, tmp, nm);
+                        }
+                }
+        }else if(idx >= np + 2 * nc + (tier ? 4 : 2)){
+                int k = idx - np - 2 * nc - (tier ? 4 : 2), i;
+                const char* alpha = (k & 1) ? "LKWAVDEG" : "ACGT";
+                int total = SH_DUPMIX[k][0] + SH_DUPMIX[k][1], len = (k % 3 == 1) ? 60 : 30;
+                sh_random_seq(&st, alpha, len, base);
+                for(i = 0; i < total; i++){
+                        char nm[32];
+                        int other;
+                        snprintf(nm, sizeof nm, "d%04d", i);
+                        /* the others: copies of one unrelated sequence of the same length, at the end (k even) or spread through
+                           the copies (k odd: every 40th record until they are used up) */
+                        other = (k & 1) ? (i % 40 == 7 && i / 40 < SH_DUPMIX[k][1]) : (i >= SH_DUPMIX[k][0]);
+                        if(other){
+                                uint64_t s3 = 0xABCDEF + (uint64_t)k;
+                                sh_random_seq(&s3, alpha, len, tmp);
+                                kx_set_add(out, tmp, nm);
+                        }else{
+                                kx_set_add(out, base, nm);
                         }
                 }
         }else{
